@@ -429,7 +429,7 @@ theorem reconstruct_attribution (c : Ctx) (rollupId : Bytes) (hs : List Meta) (b
       simp only [Bool.not_eq_true', List.contains_eq_mem, decide_eq_false_iff_not] at hnc
       exact hnc hc
 
-/-- As the code is (no id check) the same holds without the rollup-id clause: what is attached
+/-- As the code was at the pinned commit (no id check; before 793934a) the same holds without the rollup-id clause: what is attached
     is *some* rollup's audited blob. -/
 theorem reconstruct_bound (c : Ctx) (checkId : Bool) (rollupId : Bytes) (hs : List Meta) (blobs : List Blob)
     (out : List Reconstructed) (h : reconstruct c checkId rollupId hs blobs = .value out) :
